@@ -938,5 +938,20 @@ example : ∃ e, XE [[], Interp.grammarScope]
     exact ⟨e, hx, _, (rule libStore 0 _ _ _ _ _ _ σ₃ hmv (Means.prim rfl) rfl happ).1 rfl _ _
       (.one (Means.prim rfl))⟩
 
+/-- THE HYPOTHESES ARE THOSE OF THE INTERPRETER. Syntax: the syntax environment of `Interpreter::default()`
+(and of `new_with_stdlib()`, which only imports) is `[[], Interp.grammarScope]`, for which `StdSyn` holds.
+Store: in a frame that holds the bindings of `(scheme base)` (`LibFrame`; `C11.libFrame_of_evalLibraryDef`
+shows that instantiating the generated `base.sld` builds such a frame) `not` is the native procedure and
+`memv`, `null?` are the library's closures, whose standard behaviour is `C11.memv_spec` / `C11.null_spec`. -/
+example : StdSyn (Interp.default_ false).syn ∧ StdSyn (Interp.default_ true).syn ∧
+    Ruschm.ListLib.libStore.lookup 0 "not" = some (.builtin .not) ∧
+    Ruschm.ListLib.libStore.lookup 0 "memv" = some (Ruschm.ListLib.libProc "memv" 0) ∧
+    Ruschm.ListLib.libStore.lookup 0 "null?" = some (Ruschm.ListLib.libProc "null?" 0) ∧
+    Ruschm.ListLib.LibFrame Ruschm.ListLib.libStore 0 := by
+  obtain ⟨f, hf, _, hdefs, hnat⟩ := Ruschm.ListLib.libFrame_libStore.frame
+  exact ⟨stdSyn_default, stdSyn_default, Store.lookup_here hf (hnat .not (by decide)),
+    Store.lookup_here hf (hdefs "memv" (by decide)), Store.lookup_here hf (hdefs "null?" (by decide)),
+    Ruschm.ListLib.libFrame_libStore⟩
+
 end Examples
 end Ruschm.C05Meaning
